@@ -50,6 +50,16 @@ impl TargetWatcher {
                                     path.display(),
                                 );
                             }
+                            Err(notify::Error {
+                                kind: ErrorKind::Io(io_error),
+                                ..
+                            }) if io_error.kind() == std::io::ErrorKind::NotFound => {
+                                log::warn!(
+                                    "{} - Skipping watch on non-existing path: {}",
+                                    target_id,
+                                    path.display(),
+                                );
+                            }
                             Err(e) => {
                                 return Err(Error::new(e).context(format!(
                                     "Error watching path {} for target {}",
